@@ -132,10 +132,13 @@ def main(argv):
     backends = {}
     solver_s = 0.0
     per_fn = {}
+    alpha_renamed = {}
     for r in results:
         fn = r['name']
         st = per_fn.setdefault(fn, dict(sha256=r.get('sha'), obligations=0, discharged=0, paths=r.get('paths', 0),
                                         gen_s=round(r.get('gen_s', 0), 2), error=r['error']))
+        for q_, m_ in (r.get('alpha_renamed') or {}).items():
+            alpha_renamed[q_] = m_
         if r.get('dropped_prefix'):
             st['partial_function_dropped_prefix'] = r['dropped_prefix']
         if r.get('helpers_inlined'):
@@ -302,6 +305,7 @@ def main(argv):
                 'pyvc VC generator (semantics of the python subset, DESIGN.md 2.3-2.6)',
                 'z3 5.1.0 / z3 4.8.12 / cvc5 1.0.3 soundness'],
             functions_under_contract=per_fn,
+            locals_renamed_to_baseline_names=alpha_renamed,
             backends=backends, solver_s=round(solver_s, 2),
             known_finding_obligations=[o for _, o in kf_lines],
             undecided=[u['obligation'] for u in undecided],
@@ -322,8 +326,18 @@ def main(argv):
     if rebaseline:
         os.makedirs(os.path.join(ROOT, 'baseline'), exist_ok=True)
         with open(os.path.join(ROOT, 'baseline', pid + '.json'), 'w') as f:
-            json.dump({fn: dict(sha256=st['sha256'], obligations=st['obligations']) for fn, st in per_fn.items()},
-                      f, indent=1, sort_keys=True)
+            recs = {}
+            for fn, st in per_fn.items():
+                recs[fn] = dict(sha256=st['sha256'], obligations=st['obligations'])
+                q = fn.split('#')[-1]
+                try:
+                    if ':' in q and not q.startswith('ghost_'):
+                        ai = extract.alpha_info(extract.find_function(q)[0])
+                        if ai is not None:
+                            recs[fn].update(locals=ai[0], alpha=ai[1])
+                except Exception:
+                    pass
+            json.dump(recs, f, indent=1, sort_keys=True)
 
     for l in printed:
         print(l)
